@@ -108,6 +108,7 @@ structure Ctl where
   s : Send.State := Send.init
   -- RendezvousConnector
   wsOpen : Bool := false           -- `_ws` is set
+  halfOpen : Bool := false       -- a TCP connection exists, its WebSocket handshake has not finished
   everConnected : Bool := false    -- `_have_made_a_successful_connection`
   stopping : Bool := false         -- `_stopping`
   stopPending : Bool := false      -- stopService() called, its Deferred not fired yet
@@ -353,7 +354,7 @@ def exec (s : RunSt) (it : Item) (a : Arg) : StepR :=
     -- RendezvousConnector.stop: _stopping = True; d = stopService(); d.addBoth(self._stopped).
     -- ClientService.stopService() fires at once when there is no connection, otherwise after the
     -- connection has been closed (`svcStopped` event).
-    if c.wsOpen then .cont (emit { s with ctl := { c with stopping := true, stopPending := true } } .stopService) []
+    if c.wsOpen || c.halfOpen then .cont (emit { s with ctl := { c with stopping := true, stopPending := true } } .stopService) []
     else .cont (emit { s with ctl := { c with stopping := true } } .stopService) [(.T .stoppedRC, a)]
   | .dStop => .cont s [(.T .stoppedD, a)]
   | .w e => .cont (emit s (.ev e)) []
@@ -419,7 +420,7 @@ inductive Event where
   | hRefresh | hNameplateCompletions | hChooseNameplate (valid : Bool) | hWordCompletions | hChooseWords
   | send | close
   -- connection
-  | wsOpen | wsClose | wsFail | failInitial | svcStopped
+  | tcpUp | wsOpen | wsClose | wsFail | failInitial | svcStopped
   -- server → client frames
   | welcome (err : Bool) | claimed | released | closedResp | allocated | nameplates | ack | serverError
   | message (side : Side) (ph : PhaseC) (new : Bool) (good : Bool) (pake : PakeKind)
@@ -468,9 +469,13 @@ def step (c : Ctl) : Event → Ctl × List Obs × Outcome
   | .hChooseWords => api c [(.I .choose_words, {})]
   | .send => api c [(.B .send, {})]
   | .close => api c [(.B .close, {})]
+  | .tcpUp =>
+    -- the ClientService has a TCP connection, the WebSocket negotiation is under way: nothing is told to anybody
+    -- (whenConnected's Deferred fires, RendezvousConnector only hangs an errback on it)
+    if c.wsOpen || c.halfOpen then (c, [], .ok) else ({ c with halfOpen := true }, [], .ok)
   | .wsOpen =>
     -- ws_open: _have_made_a_successful_connection, _ws, then try: bind; N/M/L/A.connected()
-    guarded { c with wsOpen := true, everConnected := true }
+    guarded { c with wsOpen := true, halfOpen := false, everConnected := true }
       [(.tx .bind, {}), (.N .connected, {}), (.M .connected, {}), (.L .connected, {}), (.A .connected, {})]
   | .wsClose =>
     -- ws_close: was_open = bool(_ws); _ws = None; if was_open: N/M/L/A.lost()   (no handler: an
@@ -486,8 +491,8 @@ def step (c : Ctl) : Event → Ctl × List Obs × Outcome
     -- stopService (immediate: the fake/real service has no established connection), then
     -- B.error(ServerConnectionError) — note: no `_stopping` check on this path
     if c.wsOpen then (c, [], .ok)
-    else if c.everConnected then (c, [], .ok)
-    else match api c [(.B .k_error, { verdict := .connectionError })] with
+    else if c.everConnected then ({ c with halfOpen := false }, [], .ok)
+    else match api { c with halfOpen := false } [(.B .k_error, { verdict := .connectionError })] with
       | (c2, obs, .apiError e) => (c2, .stopService :: obs, .internal e)
       | (c2, obs, oc) => (c2, .stopService :: obs, oc)
   | .failInitial =>
@@ -502,11 +507,17 @@ def step (c : Ctl) : Event → Ctl × List Obs × Outcome
     -- _stopped → T.stoppedRC()
     if !c.stopPending then (c, [], .ok)
     else
+      -- a connection that was still negotiating goes away without ever having been open: ws_close with
+      -- was_open = False; on the very first connection that counts as a failed initial connection:
+      -- stopService() again — the service is already stopping, so this Deferred fires after the one
+      -- RendezvousConnector.stop() is waiting on — and then B.error(ServerConnectionError)
       let ag : Agenda := (if c.wsOpen then [(.N .lost, {}), (.M .lost, {}), (.L .lost, {}), (.A .lost, {})] else [])
                           ++ [(.T .stoppedRC, {})]
-      match api { c with stopPending := false, wsOpen := false } ag with
-      | (c2, obs, .apiError e) => (c2, obs, .internal e)
-      | r => r
+                          ++ (if c.halfOpen && !c.wsOpen && !c.everConnected then [(.B .k_error, { verdict := .connectionError })] else [])
+      let pre : List Obs := if c.halfOpen && !c.wsOpen && !c.everConnected then [.stopService] else []
+      match api { c with stopPending := false, wsOpen := false, halfOpen := false } ag with
+      | (c2, obs, .apiError e) => (c2, pre ++ obs, .internal e)
+      | (c2, obs, oc) => (c2, pre ++ obs, oc)
   | .welcome err =>
     -- Boss.rx_welcome: error → rx_unwelcome(WelcomeError) else W.got_welcome
     if err then guarded c [(.B .rx_unwelcome, {})] else guarded c [(.w .welcome, {})]
